@@ -673,10 +673,11 @@ def main(run: core.Run) -> None:
     nests = [gen.shrinking_nest_program(run.rng, f"t{k}") for k in range(run.size(30, 240))]
     extra += [gen.name_collision_program(run.rng, f"u{k}") for k in range(run.size(40, 300))]
     # round-3 classes: keyword inputs, static `if` on a name of the surroundings, break with else, first output
-    extra += [gen.keyword_input_program(run.rng, f"k{k}") for k in range(run.size(16, 120))]
-    extra += [gen.const_if_program(run.rng, f"s{k}") for k in range(run.size(16, 120))]
+    extra += [gen.keyword_input_program(run.rng, f"k{k}", k) for k in range(run.size(16, 120))]
+    extra += [gen.const_if_program(run.rng, f"s{k}", k) for k in range(run.size(16, 120))]
     extra += [gen.break_else_program(run.rng, f"b{k}") for k in range(run.size(4, 30))]
     extra += [gen.first_output_program(run.rng, f"o{k}") for k in range(run.size(3, 20))]
+    extra += [gen.nested_callee_program(run.rng, f"h{k}") for k in range(run.size(4, 30))]
     seen_src = set()
     extra = [m for m in extra if not (m["src"] in seen_src or seen_src.add(m["src"]))]
     for k in range(0, len(extra), 20):
